@@ -623,7 +623,7 @@ class Pilot(object):
             # we will never see another state progression.  Raise an error
             # (unless we waited for this)
             if self.state in states:
-                return
+                return self.state
 
             # FIXME: do we want a raise here, really?  This introduces a race,
             #        really, on application level
@@ -634,6 +634,11 @@ class Pilot(object):
         while self.state not in states:
 
             time.sleep(0.1)
+
+            if self.state in rps.FINAL:
+                # no further state progression will happen
+                break
+
             if timeout and (timeout <= (time.time() - start_wait)):
                 break
 
